@@ -79,4 +79,6 @@ type Io = (ByteWriter, ByteReader);
 #[cfg(swimos_verif)]
 pub mod verif_hooks {
     pub use crate::in_memory_store::{InMemoryNodePersistence, InMemoryPlanePersistence};
+    pub use crate::plane::{PlaneBuilder, PlaneModel};
+    pub use crate::server::{InMemoryPersistence, SwimServer, Transport};
 }
